@@ -17,7 +17,7 @@ func init() {
 	register("C11", checkC11)
 	describe("C11", Meta{
 		Technique: "struct-to-JSON-mirror field coverage computed from the SSA store/load sets of Jsoner/Dejsoner (persistent fields are derived from who stores them, not listed), reply-style path counting for name-resolved slots, and effect confinement of the load path (no hidden package-level state)",
-		Claim:     "Decides structural clauses of C11: (a) every field of Machine/Bondmachine (through embedding) that some front-end or API stores — i.e. not only written inside the HDL-generation call tree or by simulator code — is read by Jsoner and written by Dejsoner, and every field of the JSON mirror is written by Jsoner and read by Dejsoner; (c) every slot of a name-resolved slice is assigned on every non-failing path of Dejsoner; (d) Jsoner/Dejsoner and their callees write no package-level state other than through the registry constructors (EventuallyCreate*), so a load is a function of the JSON and the registries. (e) the loader relates an index to the list it indexes (INDEXKIND on Jsoner/Dejsoner, with the JSON mirror's lists typed like the live ones); (d) ORDER: Jsoner/Dejsoner and what they call do not sort, compact or reverse any list (positions in the lists are referred to by other lists and by the generated HDL). Necessary conditions for a lossless round trip; value fidelity, byte-identical re-save and regenerated Verilog equality are not decided.",
+		Claim:     "Decides structural clauses of C11: (a) every field of Machine/Bondmachine (through embedding) that some front-end or API stores — i.e. not only written inside the HDL-generation call tree or by simulator code — is read by Jsoner and written by Dejsoner, and every field of the JSON mirror is written by Jsoner and read by Dejsoner; (c) every slot of a name-resolved slice is assigned on every non-failing path of Dejsoner; (d) Jsoner/Dejsoner and their callees write no package-level state other than through the registry constructors (EventuallyCreate*), so a load is a function of the JSON and the registries. (e) the loader relates an index to the list it indexes (INDEXKIND on Jsoner/Dejsoner, with the JSON mirror's lists typed like the live ones); (d) ORDER: Jsoner/Dejsoner and what they call do not sort, compact or reverse any list (positions in the lists are referred to by other lists and by the generated HDL). (ALIAS) a loader that decodes several files in a loop declares the JSON mirror it decodes into inside the loop, because Dejsoner hands the mirror's slices to the machine it returns. Necessary conditions for a lossless round trip; value fidelity, byte-identical re-save and regenerated Verilog equality are not decided.",
 		Note:      "Call-graph reachability (CHA) decides which stores are 'derived' (HDL generation / VM code). Aliasing of slices between the saved form and the live machine is reported as information only.",
 		DesignRef: "DESIGN.md §2 C11",
 	})
